@@ -128,12 +128,22 @@ func main() {
 		if b, err := os.ReadFile(src); err == nil {
 			var out []string
 			in, n := false, 0
+			inUpdate := false
 			for i, line := range strings.Split(string(b), "\n") {
 				if strings.HasPrefix(line, "func NewProxy(") {
 					in = true
 				}
 				// (and a yield point inside Proxy.Update, between the stop of a re-addressed proxy
 				// and its start: the proxy mutex is held, other proxies are free to act)
+				// (and one in front of Proxy.Update's Lock(): whatever Update does before it takes the
+				// proxy's mutex - nothing, in the code as it is - happens while other requests run)
+				if strings.HasPrefix(line, "func ") {
+					inUpdate = strings.HasPrefix(line, "func (proxy *Proxy) Update(")
+				}
+				if inUpdate && strings.TrimSpace(line) == "proxy.Lock()" {
+					ind := line[:len(line)-len(strings.TrimLeft(line, "\t "))]
+					out = append(out, fmt.Sprintf("%sVerifYield(\"proxy.go:%d\")", ind, i+1))
+				}
 				if strings.TrimSpace(line) == "return start(proxy)" {
 					ind := line[:len(line)-len(strings.TrimLeft(line, "\t "))]
 					out = append(out, fmt.Sprintf("%sVerifYield(\"proxy.go:%d\")", ind, i+1))
